@@ -258,8 +258,57 @@ class Fn(object):
                          vs=s.get('vs'), notin=sorted(set(case_vals)) if lab == 'default' else None)
                 self.out[b['id']].append(e)
                 self.inn[s['to']].append(e)
+        self._expand_logical()
         self._sites = None
         self._defs = None
+
+    def _expand_logical(self):
+        """Clang evaluates the condition of a do-while (and of value contexts) as a whole: the block
+        ends in `a && b` with one true and one false edge.  Split such a block into a chain of virtual
+        blocks testing one operand each, so that every edge carries an atomic relation.  The operands
+        were evaluated before (their calls are events of earlier blocks), so re-testing them is exact."""
+        nxt = (max(self.blocks) + 1) if self.blocks else 1
+        work = list(self.blocks)
+        while work:
+            bid = work.pop()
+            blk = self.blocks[bid]
+            cond = (blk.get('term') or {}).get('cond')
+            es = self.out.get(bid, [])
+            if not (isinstance(cond, dict) and cond.get('k') == 'bin' and cond.get('op') in ('&&', '||')):
+                continue
+            te = [e for e in es if e.label == 'true']
+            fe = [e for e in es if e.label == 'false']
+            if len(te) > 1 or len(fe) > 1 or len(te) + len(fe) != len(es) or not es:
+                continue
+            a, b = cond['l'], cond['r']
+            vid = nxt
+            nxt += 1
+            term = dict(blk.get('term') or {})
+            term['cond'] = b
+            self.blocks[vid] = {'id': vid, 'events': [], 'term': term, 'succs': [], 'virtual': True}
+            blk['term'] = dict(blk.get('term') or {}, cond=a)
+            T = te[0].dst if te else None
+            F = fe[0].dst if fe else None
+            for e in es:
+                self.inn[e.dst] = [x for x in self.inn[e.dst] if x is not e]
+            new_out = []
+            if cond['op'] == '&&':
+                first = [('true', vid), ('false', F)]
+            else:
+                first = [('true', T), ('false', vid)]
+            for lab, dst in first:
+                if dst is not None:
+                    new_out.append(Edge(bid, dst, lab, a))
+            self.out[bid] = new_out
+            vout = []
+            for lab, dst in (('true', T), ('false', F)):
+                if dst is not None:
+                    vout.append(Edge(vid, dst, lab, b))
+            self.out[vid] = vout
+            for e in new_out + vout:
+                self.inn[e.dst].append(e)
+            work.append(bid)
+            work.append(vid)
 
     # ---- sites -----------------------------------------------------------------
     def sites(self):
@@ -422,7 +471,7 @@ class Fn(object):
         return lines
 
     # ---- generic finite forward dataflow ------------------------------------------
-    def forward(self, init, on_event=None, on_edge=None, limit=20000):
+    def forward(self, init, on_event=None, on_edge=None, limit=20000, stop=None):
         """Propagate sets of hashable abstract states from the entry.
 
         on_event(state, site) -> state | None | list of states
@@ -442,7 +491,10 @@ class Fn(object):
             if steps > limit * 50:
                 raise AnalysisBroken('dataflow did not converge in %s' % self.name)
             cur = [st]
-            for s in self.block_sites(bid):
+            sites = self.block_sites(bid)
+            if stop is not None and bid == stop[0]:
+                sites = sites[:stop[1]]
+            for s in sites:
                 nxt = []
                 for c in cur:
                     before[s.key].add(c)
@@ -456,6 +508,8 @@ class Fn(object):
                 cur = nxt
             for c in cur:
                 block_out[bid].add(c)
+                if stop is not None and bid == stop[0]:
+                    continue
                 for e in self.out[bid]:
                     r = on_edge(c, e) if on_edge else c
                     if r is None:
